@@ -21,11 +21,11 @@ cpp_type = CS.can_type.filter(
 )
 
 
-def cpp_schema_cfg(tier: str, n_structs: Tuple[int, int]) -> S.SchemaCfg:
+def cpp_schema_cfg(tier: str, n_structs: Tuple[int, int], dup_ids: bool = True) -> S.SchemaCfg:
     return S.SchemaCfg(
         types=S.TypeCfg(depth=2 if tier == "quick" else 3, max_arr=3),
         min_enums=1, max_enums=3, min_structs=n_structs[0], max_structs=n_structs[1], min_fields=1, max_fields=5,
-        enum_max_bits=8, type_names=cpp_type, field_names=cpp_field, shuffle_ids=True, dup_ids=True,
+        enum_max_bits=8, type_names=cpp_type, field_names=cpp_field, shuffle_ids=True, dup_ids=dup_ids,
     )
 
 
@@ -39,8 +39,8 @@ def _no_opt_opt(t: M.Type) -> bool:
 
 @st.composite
 def cpp_program(draw, tier: str, n_structs: Tuple[int, int] = (8, 14), can: bool = False, services: bool = True,
-                exclude: Any = None) -> M.Schema:
-    s = draw(S.data_schema(cpp_schema_cfg(tier, n_structs)))
+                exclude: Any = None, dup_ids: bool = True) -> M.Schema:
+    s = draw(S.data_schema(cpp_schema_cfg(tier, n_structs, dup_ids)))
     for e in s.enums:
         e.items = [(f"{e.name}x{k}", v) for k, (_n, v) in enumerate(e.items)]
     # JSON cannot express Some(None): flatten Optional[Optional[T]]
@@ -73,7 +73,7 @@ def cpp_program(draw, tier: str, n_structs: Tuple[int, int] = (8, 14), can: bool
         fns = draw(S.unique_names(cpp_field, k, k))
         ids = draw(st.permutations(list(range(k)))) if draw(st.booleans()) else list(range(k))
         ids = list(ids)
-        if draw(st.booleans()):
+        if dup_ids and draw(st.booleans()):
             i = draw(st.integers(0, k - 2))
             ids[i + 1] = ids[i]
         wf = [M.Field(fn, fid, draw(st.sampled_from([M.U(12), M.U(16), M.I(5), M.U(1), M.U(8)]))) for fn, fid in zip(fns, ids)]
